@@ -77,6 +77,9 @@ Inductive stmt : Set :=
 | SReturn (e : expr)
 | SRaise (e : err).
 
+(* a decoder: the number of its local variables (slots 0 .. n-1) and its body *)
+Record prog : Set := mk_prog { p_nvars : nat; p_body : stmt }.
+
 (* ------------------------------------------------------------------ environment *)
 Definition env := list val.
 
@@ -264,9 +267,9 @@ Section Interp.
     end.
 
   (* calling the decoder: what the caller can observe = the values yielded (generators), then the value returned
-     (None when the body falls off its end) or the exception *)
-  Definition run (p : stmt) : list val * res val :=
-    match exec p (mk_state [] data0) with
+     (None when the body falls off its end) or the exception.  Every local starts unassigned. *)
+  Definition run (p : prog) : list val * res val :=
+    match exec (p_body p) (mk_state (repeat VUnbound (p_nvars p)) data0) with
     | (ys, Next _) => (ys, Ok VNone)
     | (ys, Ret v) => (ys, Ok v)
     | (ys, Raise e) => (ys, Err e)
